@@ -1,1 +1,256 @@
 import Model.Template
+import Proofs.Lemmas.Digits
+import Proofs.Lemmas.Time
+/-! Helper lemmas about the template model: matcher soundness, deterministic matching of
+fixed-width items, captured fields → datetime arguments. -/
+namespace Template
+open Time Digits
+
+/-! ### The language of an item and soundness of `cands` / `matchItems` -/
+
+/-- the strings an item can match -/
+def InLang : Item → List Char → Prop
+  | .char c, p => p = [c]
+  | .digits n, p => p.length = n ∧ ∀ c ∈ p, isDigit c = true
+  | .lazy m, p => m ≤ p.length ∧ ∀ c ∈ p, c ≠ '\n'
+  | .alt ws, p => p ∈ ws
+  | .cls rs q, p => (∀ c ∈ p, inCls rs c = true) ∧
+      match q with
+      | .plus => 1 ≤ p.length
+      | .star => True
+      | .exact n => p.length = n
+
+theorem take_of_le_takeWhile (f : Char → Bool) :
+    ∀ (s : List Char) (k : Nat), k ≤ (s.takeWhile f).length → ∀ c ∈ s.take k, f c = true := by
+  intro s
+  induction s with
+  | nil => intro k _ c hc; simp at hc
+  | cons x xs ih =>
+    intro k hk c hc
+    cases k with
+    | zero => simp at hc
+    | succ k =>
+      rw [List.takeWhile_cons] at hk
+      by_cases hx : f x = true
+      · simp only [hx, ↓reduceIte, List.length_cons] at hk
+        simp only [List.take_succ_cons, List.mem_cons] at hc
+        rcases hc with rfl | hc
+        · exact hx
+        · exact ih k (by omega) c hc
+      · simp [hx] at hk
+
+theorem takeWhile_length_le (f : Char → Bool) (s : List Char) : (s.takeWhile f).length ≤ s.length := by
+  induction s with
+  | nil => simp
+  | cons x xs ih => rw [List.takeWhile_cons]; split <;> simp <;> omega
+
+theorem mem_downTo (lo k n : Nat) (h : n ∈ downTo lo k) : lo ≤ n ∧ n ≤ k := by
+  induction k with
+  | zero =>
+    unfold downTo at h
+    split at h
+    · simp at h; omega
+    · simp at h
+  | succ k ih =>
+    unfold downTo at h
+    split at h
+    · simp only [List.mem_cons] at h
+      rcases h with rfl | h
+      · omega
+      · have := ih h; omega
+    · simp at h
+
+theorem cands_sound (it : Item) (s : List Char) (k : Nat) (h : k ∈ cands it s) :
+    k ≤ s.length ∧ InLang it (s.take k) := by
+  cases it with
+  | char c =>
+    cases s with
+    | nil => simp [cands] at h
+    | cons x xs =>
+      simp only [cands] at h
+      split at h
+      · simp only [List.mem_singleton] at h
+        subst h; subst_vars
+        simp [InLang]
+      · simp at h
+  | digits n =>
+    simp only [cands] at h
+    split at h
+    · rename_i hc
+      simp only [List.mem_singleton] at h
+      subst h
+      refine ⟨hc.1, ?_, ?_⟩
+      · simp [List.length_take, hc.1]
+      · simpa [List.all_eq_true] using hc.2
+    · simp at h
+  | lazy m =>
+    simp only [cands, List.mem_range'_1] at h
+    have hle := takeWhile_length_le (fun c => c ≠ '\n') s
+    refine ⟨by omega, ?_, ?_⟩
+    · simp [List.length_take]; omega
+    · intro c hc
+      have := take_of_le_takeWhile (fun c => c ≠ '\n') s k (by omega) c hc
+      simpa using this
+  | alt ws =>
+    simp only [cands, List.mem_filterMap] at h
+    obtain ⟨w, hw, hk⟩ := h
+    split at hk
+    · rename_i hp
+      simp only [Option.some.injEq] at hk
+      subst hk
+      rw [List.isPrefixOf_iff_prefix] at hp
+      refine ⟨hp.length_le, ?_⟩
+      simp only [InLang]
+      rw [← List.prefix_iff_eq_take.mp hp]
+      exact hw
+    · simp at hk
+  | cls rs q =>
+    have hle := takeWhile_length_le (inCls rs) s
+    cases q with
+    | plus =>
+      simp only [cands] at h
+      have := mem_downTo _ _ _ h
+      refine ⟨by omega, fun c hc => take_of_le_takeWhile (inCls rs) s k (by omega) c hc, ?_⟩
+      simp only [List.length_take]; omega
+    | star =>
+      simp only [cands] at h
+      have := mem_downTo _ _ _ h
+      exact ⟨by omega, fun c hc => take_of_le_takeWhile (inCls rs) s k (by omega) c hc, trivial⟩
+    | exact n =>
+      simp only [cands] at h
+      split at h
+      · simp only [List.mem_singleton] at h
+        subst h
+        refine ⟨by omega, fun c hc => take_of_le_takeWhile (inCls rs) s k (by omega) c hc, ?_⟩
+        simp only [List.length_take]; omega
+      · simp at h
+
+/-- `ps` instantiates the items: one string of the item's language per item -/
+inductive Inst : List (Item × Option Key) → List (List Char) → Prop
+  | nil : Inst [] []
+  | cons {it key rest p ps} : InLang it p → Inst rest ps → Inst ((it, key) :: rest) (p :: ps)
+
+/-- the captures: the strings at the capturing items -/
+def capsFrom : List (Item × Option Key) → List (List Char) → Caps
+  | (_, some k) :: rest, p :: ps => (k, p) :: capsFrom rest ps
+  | (_, none) :: rest, _ :: ps => capsFrom rest ps
+  | _, _ => []
+
+theorem matchItems_sound :
+    ∀ (items : List (Item × Option Key)) (s : List Char) (caps : Caps),
+      matchItems items s = some caps →
+      ∃ ps, Inst items ps ∧ (s = ps.flatten ∨ s = ps.flatten ++ ['\n']) ∧ caps = capsFrom items ps := by
+  intro items
+  induction items with
+  | nil =>
+    intro s caps h
+    simp only [matchItems] at h
+    split at h
+    · rename_i hs
+      simp only [Option.some.injEq] at h
+      subst h
+      refine ⟨[], Inst.nil, ?_, rfl⟩
+      rcases hs with rfl | rfl <;> simp
+    · simp at h
+  | cons x rest ih =>
+    intro s caps h
+    obtain ⟨it, key⟩ := x
+    simp only [matchItems] at h
+    obtain ⟨k, hk, hf⟩ := List.exists_of_findSome?_eq_some h
+    obtain ⟨hlen, hlang⟩ := cands_sound it s k hk
+    cases hm : matchItems rest (s.drop k) with
+    | none => simp [hm] at hf
+    | some c =>
+      obtain ⟨ps, hinst, hflat, hcaps⟩ := ih _ _ hm
+      refine ⟨s.take k :: ps, Inst.cons hlang hinst, ?_, ?_⟩
+      · rcases hflat with hfl | hfl
+        · left; simp only [List.flatten_cons, ← hfl, List.take_append_drop]
+        · right
+          rw [List.flatten_cons, List.append_assoc, ← hfl, List.take_append_drop]
+      · simp only [hm] at hf
+        cases key with
+        | none => simp only [Option.some.injEq] at hf; subst hf; simp [capsFrom, hcaps]
+        | some key => simp only [Option.some.injEq] at hf; subst hf; simp [capsFrom, hcaps]
+
+/-! ### Deterministic (fixed-width) items: the formatted name is matched, priority-free -/
+
+/-- an item that, in front of `p`, offers exactly the length of `p` -/
+def Det (it : Item) (p : List Char) : Prop := ∀ rest, cands it (p ++ rest) = [p.length]
+
+inductive DetAll : List (Item × Option Key) → List (List Char) → Prop
+  | nil : DetAll [] []
+  | cons {it key rest p ps} : Det it p → DetAll rest ps → DetAll ((it, key) :: rest) (p :: ps)
+
+theorem det_char (c : Char) : Det (.char c) [c] := by
+  intro rest; simp [cands]
+
+theorem det_digits (n : Nat) (p : List Char) (hl : p.length = n) (hd : p.all isDigit = true) :
+    Det (.digits n) p := by
+  intro rest
+  simp only [cands]
+  rw [if_pos]
+  · rw [hl]
+  · refine ⟨by simp [hl], ?_⟩
+    rw [← hl, List.take_left]; exact hd
+
+theorem matchItems_det :
+    ∀ (items : List (Item × Option Key)) (ps : List (List Char)), DetAll items ps →
+      matchItems items ps.flatten = some (capsFrom items ps) := by
+  intro items ps h
+  induction h with
+  | nil => simp [matchItems, capsFrom]
+  | @cons it key rest p ps hdet _ ih =>
+    simp only [matchItems, List.flatten_cons, hdet ps.flatten, List.findSome?_cons,
+      List.drop_left, List.take_left, ih, List.findSome?_nil]
+    cases key <;> simp [capsFrom]
+
+/-! ### Values and strings of the temporal placeholders -/
+
+def fillable : TField → Bool
+  | .decisecond => false | .centisecond => false | .microsecond => false | _ => true
+
+/-- the number a temporal placeholder stands for -/
+def tval (t : DateTime) : TField → Nat
+  | .year => t.y | .year2 => t.y % 100 | .month => t.mo | .day => t.d
+  | .doy => doyOf t.y t.mo t.d | .hour => t.h | .minute => t.mi | .second => t.s
+  | .millisecond => t.us / 1000 | _ => 0
+
+/-- the string `get_filename` writes for a temporal placeholder -/
+def tstr (t : DateTime) : TField → List Char
+  | .year => natDigits t.y | .year2 => lastTwo (natDigits t.y) | .month => pad 2 t.mo
+  | .day => pad 2 t.d | .doy => pad 3 (doyOf t.y t.mo t.d) | .hour => pad 2 t.h
+  | .minute => pad 2 t.mi | .second => pad 2 t.s | .millisecond => pad 3 (t.us / 1000)
+  | _ => []
+
+theorem timePiece_eq (t : DateTime) (f : TField) (h : fillable f = true) :
+    timePiece t f = .ok (tstr t f) := by
+  cases f <;> first | rfl | simp [fillable] at h
+
+theorem dimL_le (l m : Nat) (hl : l ≤ 1) : dimL l m ≤ 31 := by
+  unfold dimL; split <;> omega
+
+/-- a datetime of the claimed range: valid and year ≥ 1000 -/
+def GoodTime (t : DateTime) : Prop := Valid t ∧ 1000 ≤ t.y
+
+theorem tstr_spec (t : DateTime) (f : TField) (ht : GoodTime t) (h : fillable f = true) :
+    (tstr t f).length = f.width ∧ (tstr t f).all isDigit = true ∧
+      parseNat (tstr t f) = some (tval t f) := by
+  obtain ⟨hv, hy⟩ := ht
+  have hv' := (valid_iff t).1 hv
+  obtain ⟨⟨_, hy2, hm1, hm2, hd1, hd2⟩, hh, hmi, hs, hus⟩ := hv'
+  have hdim : dim t.y t.mo ≤ 31 := dimL_le _ _ (leapN_le _)
+  have hdoy := doyOf_le t.y t.mo t.d ((valid_iff t).1 hv).1
+  cases f <;> simp only [fillable, Bool.false_eq_true] at h <;> simp only [tstr, tval, TField.width]
+  · rw [natDigits_year _ hy hy2]
+    exact ⟨padW_length _ _, padW_all_digits _ _, by rw [← natDigits_year _ hy hy2]; exact parseNat_natDigits _⟩
+  · rw [lastTwo_year _ hy hy2]
+    exact ⟨padW_length _ _, padW_all_digits _ _, by rw [← lastTwo_year _ hy hy2]; exact parseNat_lastTwo_year _ hy hy2⟩
+  · exact ⟨pad_length 2 _ (by omega) (by omega), pad_all_digits _ _, parseNat_pad _ _⟩
+  · exact ⟨pad_length 2 _ (by omega) (by omega), pad_all_digits _ _, parseNat_pad _ _⟩
+  · exact ⟨pad_length 3 _ (by omega) (by omega), pad_all_digits _ _, parseNat_pad _ _⟩
+  · exact ⟨pad_length 2 _ (by omega) (by omega), pad_all_digits _ _, parseNat_pad _ _⟩
+  · exact ⟨pad_length 2 _ (by omega) (by omega), pad_all_digits _ _, parseNat_pad _ _⟩
+  · exact ⟨pad_length 2 _ (by omega) (by omega), pad_all_digits _ _, parseNat_pad _ _⟩
+  · exact ⟨pad_length 3 _ (by omega) (by omega), pad_all_digits _ _, parseNat_pad _ _⟩
+
+end Template
